@@ -99,6 +99,11 @@ def run_core(pid, tier, seed, plan):
             else:
                 vs = [variants[(i + seed) % len(variants)]]
             for render, filefam in vs:
+                # Lines of the "hostile" family share punctuation tokens, so the tracker's token alignment inside
+                # a changed hunk is not forced: keep it to behaviours whose edits insert or delete whole lines
+                # (DESIGN.md 4.2 - strict only where the question has one answer).
+                if render == "hostile" and any(a["a"] == "Edit" and a["kind"] in ("ind", "mod") for a in b):
+                    render = "plain"
                 cfg = dict(consts, render=render, filefam=filefam, salt=rnd.randrange(13),
                            storage=camp.get("storage", "notes"))
                 jobs.append((cfg, b, "%s-%s-%d-%s-%s" % (pid, camp["name"], i, render, filefam)))
